@@ -120,3 +120,62 @@ func vfH_C17_noninterference(tier int) {
 	vfReach("C17_noninterference/ok")
 	vfReach("C17_noninterference/op/" + c17Ops[op])
 }
+
+// operations applied directly to a shared expression (not through a statement method that clones first)
+var c17Exprs = []string{
+	"scale(x, 10 / 5) > f(now() - 1h, y) AND host = 'a'",
+	"f + i * 2 > 1.5 AND (i & 3) = 1",
+	"(a + (1 + 2 + b)) * 2 > 10 OR NOT_A_CALL(c) =~ /re/",
+	"time > now() - 1h AND time < '2000-01-01' AND (region::tag = 'w' OR load::field > 2)",
+	"max(f) + min(i) / count(distinct(x))",
+}
+
+var c17ExprOps = []string{"Reduce", "EvalType", "EvalBool", "String", "CloneExpr", "ExprNames-Walk", "ConditionExpr", "HasTimeExpr-ContainsVarRef", "RewriteExpr-identity", "Eval"}
+
+func vfH_C17_expressions(tier int) {
+	text := c17Exprs[vfChoice(len(c17Exprs))]
+	op := vfChoice(len(c17ExprOps))
+	vfNote(text + " / " + c17ExprOps[op])
+	expr, err := ParseExpr(text)
+	if err != nil {
+		vfAssert(false, "C17/expressions/fixed-expression-parses")
+		return
+	}
+	now := vfInt64()
+	vfAssume(now >= 0)
+	vfAssume(now <= 1<<61)
+	valuer := MultiValuer(&NowValuer{Now: time.Unix(0, now)}, MapValuer{"x": int64(4), "y": float64(2), "b": int64(1)})
+	sources := Sources{&Measurement{Name: "m"}}
+	n := vfSharedWrites([]interface{}{expr}, func() {
+		switch op {
+		case 0:
+			Reduce(expr, valuer)
+		case 1:
+			EvalType(expr, sources, c14Mapper{})
+			if b, ok := expr.(*BinaryExpr); ok {
+				EvalType(b.LHS, sources, c14Mapper{})
+				EvalType(b.RHS, sources, c14Mapper{})
+			}
+		case 2:
+			EvalBool(expr, map[string]interface{}{"f": float64(1), "i": int64(2), "a": int64(1), "host": "a"})
+		case 3:
+			_ = expr.String()
+		case 4:
+			CloneExpr(expr)
+		case 5:
+			ExprNames(expr)
+			WalkFunc(expr, func(Node) {})
+		case 6:
+			ConditionExpr(expr, valuer)
+		case 7:
+			HasTimeExpr(expr)
+			ContainsVarRef(expr)
+		case 8:
+			RewriteExpr(CloneExpr(expr), func(e Expr) Expr { return e })
+		default:
+			Eval(expr, map[string]interface{}{"f": float64(1), "i": int64(2), "a": int64(1), "b": int64(2)})
+		}
+	})
+	vfAssert(n == 0, "C17/expressions/"+c17ExprOps[op]+"-performs-no-store-into-shared-state")
+	vfReach("C17_expressions/ok")
+}
